@@ -240,7 +240,7 @@ func c14(tier string) []*explore.Scenario {
 		}
 		out = append(out, withHistory(historyKinds(tier), base...)...)
 	}
-	out = append(out, c14Batch(8, 2, 1), c14Batch(16, 2, 0), c14Batch(32, 2, 0))
+	out = append(out, c14Batch(8, 2, 1), c14Batch(16, 2, 0), c14Batch(32, 2, 0), c01FailedWriteOlder("C14", 1))
 	// RPCs pending on the server at once (more than the 8 workers of the unary pool; up to 32 in all)
 	out = append(out, c14Pending(8, 0, 2, 0), c14Pending(9, 0, 2, 0), c14Pending(12, 4, 3, 0), c14Pending(24, 8, 2, 0), c14Pending(3, 1, 1, 1))
 	if tier == "thorough" {
